@@ -89,7 +89,8 @@ CLAIMS = {
             'GVF text round trip is a fixpoint and preserves positions, alleles, ids and attributes for every '
             'record kind with the attribute sets the parsers emit (read from source by an AST scan); circRNA '
             'round trip; byte-offset pointers (generated or via .idx text) give exactly the records of a '
-            'linear scan for unbounded symbolic line lengths incl. multi-byte characters; stale .idx rejected.',
+            'linear scan for unbounded symbolic line lengths incl. multi-byte characters and a last line with or without '
+            'a final newline; stale .idx rejected.',
             'Decimal renderings are modelled by opaque tokens (mpgverif/inttok.py); SHA-512 is stubbed.'),
     'C14': (True, CH,
             'VEP converter: for every chromosome content (length 5, thorough 6), gene/transcript span, strand, '
@@ -119,7 +120,8 @@ CLAIMS = {
     'C19': (True, CH,
             'For each of 9 header-entry kinds and all values of expression, cut-off, coding membership, denylist and the '
             'keep-* flags, the real filter keeps an entry iff the stated rule holds; peptide kept iff some entry kept; '
-            'sequence unchanged; idempotent; miscleavage range exact.',
+            'sequence unchanged; idempotent; miscleavage range exact, counted under the trypsin exceptions (CKD, DKD, RRH '
+            'motif peptides).',
             'Expression values are integers (real-valued levels outside the claim); labels are concrete strings.'),
     'C01': (True, CH,
             'Stage 1 of 5: for every reading frame and every compatible subset of <=2 supplied variants (3 for SNVs) '
@@ -171,7 +173,8 @@ CLAIMS = {
             'callVariant half: on TWO concrete fusions (acceptor entered in frame / out of frame) the real '
             'call_peptide_fusion traversal reports exactly the non-canonical digestion products of donor-up-to-breakpoint + '
             'acceptor-from-breakpoint for miscleavage 0..1 (thorough 2) and ALL integer min/max lengths; a third fusion has '
-            'an mRNA_end_NF acceptor (the open-ended last fragment is not a product).',
+            'an mRNA_end_NF acceptor (the open-ended last fragment is not a product). Arriba evidence thresholds: is_valid '
+            'equals the three-way conjunction for unbounded symbolic read counts / minima and every confidence pair.',
             'The callVariant half is decided on two fixed fusions with exonic breakpoints only; REF base content is '
             'stubbed in the parser conditions.'),
     'C18': (True, CH,
@@ -186,7 +189,7 @@ CLAIMS = {
     'C20': (True, CH,
             'Reversal and shuffle are rearrangements keeping every fixed position for all sequences of length <=5 and all '
             'fixed sets (shuffle: arbitrary symbolic permutation); fixed-index rule for termini/listed residues; one '
-            'decoy per target, header, output order, order independence with a stateful RNG stand-in; reproducibility for '
+            'decoy per target, header (whole title, incl. a two-entry title whose id is its first word), output order, order independence with a stateful RNG stand-in; reproducibility for '
             'ANY integer seed (0 and negatives included) from any prior generator state.',
             'Known finding: trypsin cleavage residue not kept in place (known_findings.txt).'),
 }
